@@ -251,6 +251,8 @@ func runControls(dir string) *controlResult {
 		{"EMPTY-VS-NIL", map[string]bool{"(*runState).BadResetKeepsBuffer": true}},
 		{"MEMO-COMMIT", map[string]bool{"(*rowCache).BadCommitBeforeLoad": true, "(*rowCache).GoodCommitAfterLoad": false}},
 		{"LOCS-IMPLY-FREQNORM", map[string]bool{"BadFlagsLocsWithoutFreqNorm": true, "GoodFlagsLocsImplyFreqNorm": false}},
+		{"SEEN-UNCONDITIONAL", map[string]bool{"(*ctlBuilder).BadSeenOnlyWithTerms": true, "(*ctlBuilder).GoodSeenAlways": false}},
+		{"FLUSH-SITES-AGREE", map[string]bool{"BadFlushSitesLastTermUntracked": true, "GoodFlushSitesAllTracked": false}},
 	} {
 		rule := rules[rc.rule]
 		if rule == nil {
